@@ -202,10 +202,14 @@ def run_manager(sysm, ops, scale, out, align=None):
             if (len(ev) + len(sysm.mols)) % 3 == 0 and os.path.exists('/dev/full'):
                 # an earlier attempt whose output device is full (every write to /dev/full fails with ENOSPC): however
                 # it ends, the next extrapolation of the same manager writes the file the specification describes
+                full = out + '.full.gro'          # a .gro name whose device is full
+                if not os.path.islink(full):
+                    os.symlink('/dev/full', full)
                 try:
                     with contextlib.redirect_stdout(io.StringIO()):
-                        man.extrapolate_system('/dev/full')
-                except Exception:
+                        man.extrapolate_system(full)
+                    ev.append({'op': 'Exception', 'type': 'NoErrorOnFullDevice', 'text': 'extrapolate_system reported success on a full device'})
+                except Exception:          # OSError from the device, or the pre-flight refusal this life cycle is about
                     pass
             try:
                 with contextlib.redirect_stdout(io.StringIO()):
